@@ -240,7 +240,7 @@ func c7relation(d, u *c7slot) string {
 
 func TestC07(t *testing.T) {
 	r, e := start(t, "C07",
-		"random block trees (functions at top level, if/else-if/else, for with header variable, range with header variables, switch cases; depth <= 4) with one definition site (:=, var, for-init variable, range variable, parameter, function) and one use site (read, write, redefinition by := or var, call) placed at any statement boundary; plus break/continue/return/func placed at every boundary, functions that can fall off their end, duplicate functions/parameters, undefined names. Oracle: lexical-scope model (visible from the definition to the end of its block and in nested blocks; function bodies see only globals defined before the function; no shadowing; functions usable after their top-level definition). Non-trivial = definition and use in different blocks; distinct by program text.",
+		"random block trees (functions at top level, if/else-if/else, for with header variable, range with header variables, switch cases; depth <= 4) with one definition site (:=, var, for-init variable, range variable, parameter, function) and one use site (read, write, redefinition by := or var, call) placed at any statement boundary; plus break/continue/return/func placed at every boundary, duplicate functions/parameters, undefined names; an enumeration of value-returning functions (3 result signatures x 3 prefixes x 13 last-statement shapes incl. empty / comment-only bodies x used/unused) that can fall off their end; import-boundary cases (globals, locals and functions of an imported file seen from the importer and the reverse). Oracle: lexical-scope model (visible from the definition to the end of its block and in nested blocks; function bodies see only globals defined before the function; no shadowing; functions usable after their top-level definition). Non-trivial = definition and use in different blocks; distinct by program text.",
 		[]string{"shadowing an outer variable is treated as an error, as the property states (Go would allow it)", "a value-returning function must end with a return statement (if/else chains that both return are not asserted)", "accepted programs are not executed here (C01-C03 own the run-time semantics)"})
 	defer r.Flush()
 	_ = e
@@ -278,6 +278,33 @@ func TestC07(t *testing.T) {
 			r.Class("fixed:" + f.expect)
 			if kind, msg := checkVerdict(c); kind != "" {
 				r.Violate(rep.Sig{"fixed": f.note, "kind": kind}, f.note+": "+msg+"\n"+f.src, c)
+			}
+		}
+	}
+
+	// import boundaries: names do not cross files except public functions through the alias
+	if e.Shard == 0 {
+		lib := "gl := 5\nfunc Pub() int {\n\tlocal := gl + 1\n\treturn local\n}\n"
+		for _, ib := range []struct{ main, lib, expect, note string }{
+			{"import l \"lib.tsh\"\nprint(l.Pub())\n", lib, "accept", "public-function-through-alias"},
+			{"import l \"lib.tsh\"\nprint(l.Pub())\nprint(gl)\n", lib, "reject", "global-of-imported-file-read-in-importer"},
+			{"import l \"lib.tsh\"\nprint(l.Pub())\ngl = 6\n", lib, "reject", "global-of-imported-file-written-in-importer"},
+			{"import l \"lib.tsh\"\nprint(l.Pub())\nprint(l.gl)\n", lib, "reject", "global-of-imported-file-through-alias"},
+			{"import l \"lib.tsh\"\nprint(l.Pub())\nprint(local)\n", lib, "reject", "local-of-imported-function-in-importer"},
+			{"import l \"lib.tsh\"\ngl := 7\nprint(l.Pub(), gl)\n", lib, "accept", "same-name-defined-in-both-files"},
+			{"import l \"lib.tsh\"\nmg := 1\nprint(l.Pub(), mg)\n", "func Pub() int {\n\treturn mg\n}\n", "reject", "global-of-importer-read-in-imported-function"},
+			{"import l \"lib.tsh\"\nmg := 1\nprint(l.Pub(), mg)\n", "func Pub() int {\n\tmg = 2\n\treturn 1\n}\n", "reject", "global-of-importer-written-in-imported-function"},
+			{"import l \"lib.tsh\"\nfunc mainfn() int {\n\treturn 1\n}\nprint(l.Pub(), mainfn())\n", "func Pub() int {\n\treturn mainfn()\n}\n", "reject", "function-of-importer-called-in-imported-file"},
+			{"import l \"lib.tsh\"\nprint(l.Pub())\n", "func Pub() int {\n\treturn 1\n}\nprint(undefinedhere)\n", "reject", "undefined-name-in-imported-top-level-code"},
+			{"import l \"lib.tsh\"\nimport m \"lib2.tsh\"\nprint(l.Pub(), m.Other())\n", "func Pub() int {\n\treturn Other()\n}\n", "reject", "function-of-sibling-import-without-alias"},
+		} {
+			files := map[string]string{"main.tsh": ib.main, "lib.tsh": ib.lib, "lib2.tsh": "func Other() int {\n\treturn 2\n}\n"}
+			c := verdictCase{Kind: "verdict", Property: "C07", Files: files, Main: "main.tsh", Expect: ib.expect, Note: "import-boundary:" + ib.note}
+			r.Eval()
+			r.NonTrivial(ib.main+ib.lib, nil)
+			r.Class("import-boundary:" + ib.expect)
+			if kind, msg := checkVerdict(c); kind != "" {
+				r.Violate(rep.Sig{"import-boundary": ib.note, "kind": kind}, c.Note+": "+msg+"\n--- main\n"+ib.main+"--- lib\n"+ib.lib, c)
 			}
 		}
 	}
